@@ -30,6 +30,8 @@ from harness import tlc
 
 NAMES = ['n', 'n2', 'o', 'u']
 ROLES = ['dflt', 'old', 'x', 'y', 'nobody']
+# concrete spelling of the abstract role names (gamma): 'x' carries a character outside the BMP
+SPELL = {'x': 'x\U0001f511', 'y': 'y-é'}
 VARIANTS = ['plain', 'renamed', 'split', 'same']
 
 MC_CFG = """SPECIFICATION Spec
@@ -105,7 +107,7 @@ def spell(body, rng, allow_list=True):
         return rng.choice(['rule:' + body['n'], '(rule:%s)' % body['n']])
     if body['k'] == 'any':
         return rng.choice(['', '@', []]) if allow_list else rng.choice(['', '@'])
-    leaves = ['role:' + r for r in body['r']]
+    leaves = ['role:' + SPELL.get(r, r) for r in body['r']]
     if not leaves:
         return '!'
     style = rng.randrange(6)
@@ -155,7 +157,7 @@ def enforcer_on(main_path, dirs, variant):
 def decisions(e):
     out = {}
     for n in NAMES:
-        out[n] = [r for r in ROLES if e.enforce(n, {'zz': 'q'}, {'roles': [r]})]
+        out[n] = [r for r in ROLES if e.enforce(n, {'zz': 'q'}, {'roles': [SPELL.get(r, r)]})]
     return out
 
 
@@ -199,6 +201,9 @@ def run_tool(tool, variant, main, dfile, rng):
                             os.makedirs(empty)
                             c['after'] = decisions(enforcer_on(out, [empty], variant))
                         else:
+                            if rng.random() < 0.5:
+                                # the tools are run one after the other on the same enforcer
+                                generator._generate_policy('ns', os.path.join(d, 'ignored.yaml'))
                             buf = io.StringIO()
                             with contextlib.redirect_stdout(buf):
                                 generator._list_redundant('ns')
